@@ -36,14 +36,28 @@ Forward(c, h, msg, px, sx) ==
 
 Nothing(ret) == [ret |-> ret, queued |-> FALSE, tx |-> <<>>]
 
+\* ---- the mesh master's answers to look-ups (c.dhcp = its table as a sequence of <<id, address>> pairs)
+TAddrLookup == 196  TIdLookup == 198  TRelease == 197
+Signed16(v) == LE16(IF v < 0 THEN v + 65536 ELSE v)
+AddrOfId(tab, i) == IF i = 0 THEN 0 ELSE IF \E k \in 1..Len(tab) : tab[k][1] = i THEN tab[CHOOSE k \in 1..Len(tab) : tab[k][1] = i][2] ELSE -2
+IdOfAddr(tab, a) == IF a = 0 THEN 0 ELSE IF \E k \in 1..Len(tab) : tab[k][2] = a THEN tab[CHOOSE k \in 1..Len(tab) : tab[k][2] = a][1] ELSE -2
+LookupAnswer(c, h, msg, px, sx) ==
+  LET enough == Len(msg) >= (IF h.type = TAddrLookup THEN 1 ELSE 2)
+      val == IF h.type = TAddrLookup THEN AddrOfId(c.dhcp, msg[1]) ELSE IdOfAddr(c.dhcp, msg[1] + 256 * msg[2]) IN
+  IF ~enough THEN Nothing(h.type)                                  \* truncated request: ignored
+  ELSE [ret |-> h.type, queued |-> FALSE,
+        tx |-> <<Tx(Toward(c, h.from, px, sx), [h EXCEPT !.to = h.from], Signed16(val), FALSE)>>]
+
 InContract(c, h) == /\ h.type \notin {FIRST, MORE, LAST}
                     /\ IsNode(h.from) /\ (IsNode(h.to) \/ (h.to = McastAddr /\ c.allowMc))
                     /\ (h.to = McastAddr /\ c.relay => c.lvl \in 1..3)        \* what a relay on level 0 or 4 does is not specified
-                    /\ ~(c.role = "master" /\ h.type \in {195, 196, 197, 198})
+                    /\ ~(c.role = "master" /\ h.type \in {195, 197})           \* allocation and release: C16 (TraceMeshDhcp)
+                    /\ ~(c.role = "master" /\ h.type \in {196, 198} /\ h.from = c.addr)
 
 Outcome(c, h, msg, px, sx) ==
   IF h.to = c.addr THEN                                           \* ---- addressed to this node
-     IF h.type = TPing THEN Nothing(TPing)
+     IF c.role = "master" /\ h.type \in {TAddrLookup, TIdLookup} THEN LookupAnswer(c, h, msg, px, sx)
+     ELSE IF h.type = TPing THEN Nothing(TPing)
      ELSE IF h.type = TAddrResp /\ c.addr # Default THEN            \* hand an address response on to the unassigned requester
           [ret |-> TAddrResp, queued |-> FALSE, tx |-> <<Tx(Pipe0Of(c, Default, px, sx), [h EXCEPT !.to = Default], msg, TRUE)>>]
      ELSE IF h.type = TAddrReq /\ c.addr # 0 THEN                   \* pass an address request on to the master, in this node's name
@@ -55,7 +69,9 @@ Outcome(c, h, msg, px, sx) ==
         [ret |-> 0, queued |-> FALSE,
          tx |-> IF c.parent THEN <<Tx(Pipe0Of(c, h.from, px, sx), [h EXCEPT !.to = h.from, !.from = c.addr], msg, TRUE)>> ELSE <<>>]
      ELSE [ret |-> h.type, queued |-> TRUE,
-           tx |-> IF c.relay THEN <<Tx(PhysAddr(LevelAddr(c.lvl + 1), 0, px, sx, TRUE), h, msg, TRUE)>> ELSE <<>>]
+           tx |-> (IF c.relay THEN <<Tx(PhysAddr(LevelAddr(c.lvl + 1), 0, px, sx, TRUE), h, msg, TRUE)>> ELSE <<>>)
+                  \* (the master answers a look-up whatever address it was sent to)
+                  \o (IF c.role = "master" /\ h.type \in {TAddrLookup, TIdLookup} THEN LookupAnswer(c, h, msg, px, sx).tx ELSE <<>>)]
   ELSE IF c.addr = Default THEN Nothing(h.type)                     \* ---- for somebody else, but this node has no place in the tree
   ELSE [ret |-> 0, queued |-> FALSE, tx |-> Forward(c, h, msg, px, sx)]   \* ---- for somebody else: pass it along
 
